@@ -238,39 +238,91 @@ func c06PRF(c *Ctx) {
 	}
 	// key block partition
 	if f := c.Fn("gmtls", "keysFromMasterSecret"); f != nil {
-		be := newBigEnv(f, allParamNames(f))
-		var got []string
-		for _, b := range f.Blocks {
-			if ret, ok := b.Instrs[len(b.Instrs)-1].(*ssa.Return); ok {
-				for _, r := range ret.Results {
-					got = append(got, be.bytesOf(unspill(r), ret).String())
-				}
+		// Decided on absolute (offset, length) pairs computed with linear arithmetic, so that it does not matter
+		// whether the block is cut by repeated re-slicing or by explicit offsets: the six results are the consecutive
+		// pieces of ONE buffer with lengths macLen, macLen, keyLen, keyLen, ivLen, ivLen
+		lb := &LB{p: c.P, f: f, UsedContracts: map[string]bool{}}
+		var mac, key, iv ssa.Value
+		for _, p := range f.Params {
+			switch p.Name() {
+			case "macLen":
+				mac = p
+			case "keyLen":
+				key = p
+			case "ivLen":
+				iv = p
 			}
 		}
-		km := "make(add(mul(0x2,ivLen),mul(0x2,keyLen),mul(0x2,macLen)))"
-		s1 := "slice(" + km + ",macLen,_)"
-		s2 := "slice(" + s1 + ",macLen,_)"
-		s3 := "slice(" + s2 + ",keyLen,_)"
-		s4 := "slice(" + s3 + ",keyLen,_)"
-		s5 := "slice(" + s4 + ",ivLen,_)"
-		want := []string{"slice(" + km + ",_,macLen)", "slice(" + s1 + ",_,macLen)", "slice(" + s2 + ",_,keyLen)", "slice(" + s3 + ",_,keyLen)", "slice(" + s4 + ",_,ivLen)", "slice(" + s5 + ",_,ivLen)"}
-		norm := func(xs []string) string {
-			s := strings.Join(xs, " | ")
-			// the sum may be ordered differently by the canonicaliser: compare up to the make(...) argument
-			i := strings.Index(s, "make(")
-			for i >= 0 {
-				j := strings.Index(s[i:], ")))")
-				if j < 0 {
+		// absolute start and length of a slice expression relative to its root buffer
+		var span func(v ssa.Value) (root ssa.Value, lo lin, n lin, ok bool)
+		span = func(v ssa.Value) (ssa.Value, lin, lin, bool) {
+			v = unspill(v)
+			sl, isSl := v.(*ssa.Slice)
+			if !isSl {
+				return v, linConst(0), lb.lenLin(v), true
+			}
+			r, blo, bn, ok := span(sl.X)
+			if !ok {
+				return nil, lin{}, lin{}, false
+			}
+			lo := linConst(0)
+			if sl.Low != nil {
+				lo = lb.linOf(sl.Low)
+			}
+			n := bn.addScaled(lo, -1)
+			if sl.High != nil {
+				n = lb.linOf(sl.High).addScaled(lo, -1)
+			}
+			return r, blo.addScaled(lo, 1), n, true
+		}
+		okPart := mac != nil && key != nil && iv != nil
+		detail := ""
+		for _, b := range f.Blocks {
+			ret, isRet := b.Instrs[len(b.Instrs)-1].(*ssa.Return)
+			if !isRet || !okPart {
+				continue
+			}
+			if len(ret.Results) != 6 {
+				okPart = false
+				break
+			}
+			wantLen := []ssa.Value{mac, mac, key, key, iv, iv}
+			pos := linConst(0)
+			var root0 ssa.Value
+			for i, r := range ret.Results {
+				root, lo, n, ok := span(r)
+				if !ok {
+					okPart = false
 					break
 				}
-				s = s[:i] + "KM" + s[i+j+3:]
-				i = strings.Index(s, "make(")
+				if i == 0 {
+					root0 = root
+				}
+				dLo := lo.addScaled(pos, -1)
+				dN := n.addScaled(lb.linOf(wantLen[i]), -1)
+				if root != root0 || len(dLo.c) != 0 || dLo.k != 0 || len(dN.c) != 0 || dN.k != 0 {
+					okPart = false
+					detail = fmt.Sprintf("result %d starts at offset %s with length %s of the key block", i, linString(lo), linString(n))
+				}
+				pos = pos.addScaled(lb.linOf(wantLen[i]), 1)
 			}
-			return s
 		}
-		c.Check(norm(got) == norm(want), rule, fname(f), "key block = client MAC | server MAC | client key | server key | client IV | server IV", "", "the key block is cut as "+norm(got), f.Pos())
-		// its length
-		c.Check(strings.Contains(strings.Join(got, " "), "mul(0x2,ivLen)") && strings.Contains(strings.Join(got, " "), "mul(0x2,keyLen)") && strings.Contains(strings.Join(got, " "), "mul(0x2,macLen)"), rule, fname(f), "key block length = 2*(macLen+keyLen+ivLen)", "", "key material is "+strings.Join(got[:1], ""), f.Pos())
+		c.Check(okPart, rule, fname(f), "key block = client MAC | server MAC | client key | server key | client IV | server IV", "", "the six results are not the consecutive pieces of the key block with lengths macLen, macLen, keyLen, keyLen, ivLen, ivLen: "+detail, f.Pos())
+		// its length: the buffer the pieces are cut from has exactly 2*(macLen+keyLen+ivLen) bytes
+		okLen := false
+		for _, b := range f.Blocks {
+			if ret, isRet := b.Instrs[len(b.Instrs)-1].(*ssa.Return); isRet && len(ret.Results) == 6 && mac != nil && key != nil && iv != nil {
+				if root, _, _, ok := span(ret.Results[0]); ok {
+					want := lb.linOf(mac).scale(2).addScaled(lb.linOf(key), 2).addScaled(lb.linOf(iv), 2)
+					d := lb.lenLin(root).addScaled(want, -1)
+					if ms, isMk := root.(*ssa.MakeSlice); isMk {
+						d = lb.linOf(ms.Len).addScaled(want, -1)
+					}
+					okLen = len(d.c) == 0 && d.k == 0
+				}
+			}
+		}
+		c.Check(okLen, rule, fname(f), "key block length = 2*(macLen+keyLen+ivLen)", "", "the key material buffer does not have 2*(macLen+keyLen+ivLen) bytes", f.Pos())
 	}
 	// GMSSL PRF: prf12 over SM3
 	if f := c.Fn("gmtls", "prfAndHashForGM"); f != nil {
